@@ -283,4 +283,16 @@ impl<D: StorageData> MapProbe<D> {
     pub fn capacity(&self) -> u64 {
         self.map.capacity()
     }
+
+    /// Independent copy (storage copied, map re-loaded from it).
+    pub fn copy(&self, name: &str) -> Result<Self, DbError> {
+        let storage = self.storage.copy(name)?;
+        let map = MultiMapStorage::from_storage(&storage, self.map.storage_index())?;
+        Ok(Self { storage, map })
+    }
+
+    /// Raw bytes of the underlying storage and a rendering of its record table.
+    pub fn raw_state(&self) -> Result<(Vec<u8>, String), DbError> {
+        self.storage.verif_state()
+    }
 }
